@@ -16,10 +16,11 @@ _RULE = (
     "Bounded-exhaustive. (cm) every content-spec tree over names {a,b,c} with operators ',' '|' and suffix none/?/*/+ at EVERY node "
     "(group nesting <= 3, a single-child parenthesis only at top level) - quick: all trees with <= 2 leaves (first-occurrence-canonical naming) "
     "+ EMPTY, ANY, (#PCDATA), (#PCDATA)*, 7 mixed models, each against EVERY child sequence of length <= 3 over "
-    "{a,b,c,d(undeclared),text,white space,comment,PI} plus '<e/>' under {IG,DG}x{SAX2,DOM}x{always,auto}; every element-only sequence of "
-    "length <= 4 over {a,b,c,d}; all 43 520 three-leaf trees (no top-level wrapper) against every sequence of length <= 4 over {a,b,c} under "
-    "IG/SAX2/always + DG/SAX2/auto; thorough: all 3^n namings for <= 2 leaves, length <= 4 over the 8 tokens / <= 5 over {a,b,c,d}, three-leaf trees "
-    "under 4 pairwise-covering configurations, four-leaf trees with <= 2 non-empty suffixes against every sequence <= 4 over {a,b,c}. One document per "
+    "{a,b,c,d(undeclared),text,white space,comment,PI} plus '<e/>' under all 8 configurations {IG,DG}x{SAX2,DOM}x{always,auto}; every element-only "
+    "sequence of length <= 4 over {a,b,c,d} under 4 pairwise-covering configurations; all 43 520 three-leaf trees (no top-level wrapper) against every "
+    "sequence of length <= 4 over {a,b,c}, each model under IG/SAX2/always or DG/SAX2/auto (alternating by model index); thorough: all 3^n namings for <= 2 "
+    "leaves, length <= 4 over the 8 tokens / <= 5 over {a,b,c,d}, three-leaf trees x sequences <= 4 over {a,b,c,d} under 4 pairwise-covering configurations, "
+    "four-leaf trees with <= 2 non-empty suffixes against every sequence <= 4 over {a,b,c}. One document per "
     "model, one instance per line, verdict per line; each disagreement is re-run as a single-instance document before it counts. Oracle: "
     "Brzozowski derivatives over the content-spec AST ('valid iff member', XML 1.0 3.2), cross-checked per model by an independent end-position "
     "matcher. (cmx) 16 models x every sequence <= 2 (thorough 3) over 16 extended tokens (character references, CDATA sections, entity references to "
@@ -27,7 +28,7 @@ _RULE = (
     "boundary literals x {absent, 39 literals}; (idref) every ID/IDREF/IDREFS assignment over <= 3 elements; (vc) root-name matrix, 40 single-"
     "constraint cases, standalone x {internal, external subset, external PE, INCLUDE section} x 19 scenarios. Single-document spaces run under 7 "
     "subset placements (internal, external, split, internal PE, external PE, INCLUDE section, INCLUDE via PE + IGNOREd conflicting declaration) "
-    "and compare the event dump between validation never/always/auto and between placements. (place) <= 2-leaf models x sequences <= 2 (thorough 3) "
+    "(quick attr/idref: internal + one other placement per case, round-robin) and compare the event dump between validation never/always/auto and between placements. (place) <= 2-leaf models x sequences <= 2 (thorough 3) "
     "under all 7 placements. distinct_nontrivial = (model, child sequence) instances + single documents whose verdict was compared with the reference."
 )
 
